@@ -34,7 +34,6 @@ MODEL_NOTES = [
     "bytes replaced by /verif/env/bytes-model (Vec-backed BytesMut with the documented advance/put_slice contract)",
     "std::collections::HashMap replaced by /verif/env/std-model association list (insertion-order iteration)",
     "std::fs in extractor.rs/metainfo.rs replaced by /verif/env/std-model in-memory fs",
-    "every Serializer::data() in the scratch copy first records (message id, up to three integer fields) in a cfg(kani)-only static log, so that harnesses can tell which messages were handed to the socket without reading socket bytes back",
     "the five field-less message structs get one unobservable padding byte in the scratch copy (works around a CBMC 6.11 crash on zero-sized values held across an await)",
 ]
 
@@ -165,32 +164,6 @@ def build_scratch(scratch):
             if t != o:
                 open(p, "w").write(t)
                 rewritten.append(os.path.relpath(p, crate))
-
-    # message log (see harness/_verif_log.rs): one call at the top of every Serializer::data()
-    tags = {
-        "keep_alive.rs": ("100", "0", "0", "0"),
-        "handshake.rs": ("200", "0", "0", "0"),
-        "choke.rs": ("0", "0", "0", "0"),
-        "unchoke.rs": ("1", "0", "0", "0"),
-        "interested.rs": ("2", "0", "0", "0"),
-        "not_interested.rs": ("3", "0", "0", "0"),
-        "have.rs": ("4", "self.piece_index", "0", "0"),
-        "bitfield.rs": ("5", "self.pieces_bytes.len() as u32", "0", "0"),
-        "request.rs": ("6", "self.piece_index", "self.block_begin", "self.block_length"),
-        "piece.rs": ("7", "self.piece_index", "self.block_begin", "self.block.len() as u32"),
-        "cancel.rs": ("8", "self.piece_index", "self.block_begin", "self.block_length"),
-    }
-    for f, (tag, a, b, c) in tags.items():
-        p = os.path.join(crate, "src", "messages", f)
-        if not os.path.exists(p):
-            continue
-        t = open(p).read()
-        hook = "    fn data(&self) -> Vec<u8> {\n        #[cfg(kani)]\n        crate::verif_log::sent(%s, %s, %s, %s);" % (tag, a, b, c)
-        t2 = t.replace("    fn data(&self) -> Vec<u8> {", hook, 1)
-        if t2 != t:
-            open(p, "w").write(t2)
-    with open(os.path.join(crate, "src", "lib.rs"), "a") as fh:
-        fh.write('\n#[cfg(kani)]\n#[path = "%s"]\npub(crate) mod verif_log;\n' % os.path.join(scratch, "vh", "_verif_log.rs"))
 
     injected = []
     for fname in sorted(os.listdir(os.path.join(scratch, "vh"))):
